@@ -248,12 +248,12 @@ Definition ref_clone (s : st) (a : N) : st :=
 Definition inst (c : clo) (mk : list act -> ckind) (s : st) : citem * st :=
   let uid := nuid s in
   let '(caps, s1) := take_caps (clo_caps c) s in
-  (CI uid (clo_id c) (mk (clo_body c)) caps, emit (set_nuid s1 (uid + 1)%N) (EClo uid (clo_id c))).
+  (CI uid (clo_id c) (mk (clo_body c)) caps None, emit (set_nuid s1 (uid + 1)%N) (EClo uid (clo_id c))).
 
 Definition target_ev (s : st) (ci : citem) : st :=
   match ci with
-  | CI u _ (KMeth a _ _) _ => emit s (ETarget u a false)
-  | CI u _ (KPrep a _ _) _ => emit s (ETarget u a true)
+  | CI u _ (KMeth a _ _) _ _ => emit s (ETarget u a false)
+  | CI u _ (KPrep a _ _) _ _ => emit s (ETarget u a true)
   | _ => s
   end.
 
@@ -262,7 +262,7 @@ Definition inst_call (c : clo) (mk : list act -> ckind) (s : st) : citem * st :=
 
 Definition inst_nocaps (c : clo) (mk : list act -> ckind) (s : st) : citem * st :=
   let uid := nuid s in
-  (CI uid (clo_id c) (mk (clo_body c)) [], emit (set_nuid s (uid + 1)%N) (EClo uid (clo_id c))).
+  (CI uid (clo_id c) (mk (clo_body c)) [] None, emit (set_nuid s (uid + 1)%N) (EClo uid (clo_id c))).
 
 (* closures created inside a Drop impl (token scripts) capture from the global environment only *)
 Fixpoint take_env_caps (ids : list N) (s : st) : list (N * hval) * st :=
@@ -277,12 +277,13 @@ Fixpoint take_env_caps (ids : list N) (s : st) : list (N * hval) * st :=
 Definition inst_env (c : clo) (mk : list act -> ckind) (s : st) : citem * st :=
   let '(caps, s1) := take_env_caps (clo_caps c) s in
   let uid := nuid s1 in
-  (CI uid (clo_id c) (mk (clo_body c)) caps, emit (set_nuid s1 (uid + 1)%N) (EClo uid (clo_id c))).
+  (CI uid (clo_id c) (mk (clo_body c)) caps None, emit (set_nuid s1 (uid + 1)%N) (EClo uid (clo_id c))).
 
 Definition push_main (s : st) (ci : citem) : st := set_mainq s (mainq s ++ [ci]).
 
 Definition submit (s : st) (q : qk) (ci : citem) : st :=
-  let s1 := emit s (ESub q (ci_uid ci)) in
+  let s1 := emit s (ESub q (ci_uid ci) (ci_call ci)) in
+  let ci := ci_setq ci q in
   match q with
   | QMain => push_main s1 ci
   | QLazy => set_lazyq s1 (lazyq s1 ++ [ci])
@@ -396,7 +397,8 @@ Definition var_timer (s : st) (k : tk) (v : N) : option titem :=
 Definition timer_add (s : st) (k : tk) (v : N) (t : Z) (ci : citem) : st :=
   let i := tnext s in
   let ord := Z.max t (now s) in
-  let s1 := emit s (ESub QTimer (ci_uid ci)) in
+  let s1 := emit s (ESub QTimer (ci_uid ci) (ci_call ci)) in
+  let ci := ci_setq ci QTimer in
   set_tvars (set_tnext (set_timers s1 (timers s1 ++ [TI i k t ord ci])) (i + 1)%N) (vset (tvars s1) k v i).
 
 (* ------------------------------------------------------------------ *)
@@ -415,7 +417,7 @@ Definition created (e : ev) : option (N * N) :=
 
 Definition consumed (e : ev) : option (N * N) :=
   match e with
-  | ERun u _ | EMeth _ u _ | EPrep _ u _ | EDrop u => Some (LK_CLO, u)
+  | ERun u _ _ | EMeth _ u _ | EPrep _ u _ | EDrop u _ _ => Some (LK_CLO, u)
   | EValDrop a => Some (LK_VAL, a)
   | ERet r _ => Some (LK_RET, r)
   | ENotify a _ => Some (LK_NOTIFY, a)
@@ -639,7 +641,7 @@ Definition do_act (a : act) (s : st) : list mop * st :=
           | Some x =>
               let s1 := upd_actor s a (with_strong x (oz (count_inc (a_strong x)))) in
               let s2 := ref_clone s1 a in
-              ([], push_main (emit s2 (EReq a (CKill e))) (CI 0 0 (KKill a e) []))
+              ([], push_main (emit s2 (EReq a (CKill e))) (CI 0 0 (KKill a e) [] None))
           | None => bad s 16
           end
       | _ => bad s 16
@@ -831,10 +833,11 @@ Definition apply_kind (k : ckind) : bool :=
 
 Definition run_item (ci : citem) (s : st) : list mop * st :=
   match ci with
-  | CI uid cid kind caps =>
+  | CI uid cid kind caps sq =>
       match kind with
       | KPlain body =>
-          ([MActs body; MEndBody uid FNone], push_frame (emit s (ERun uid (now s))) XStk caps)
+          ([MActs body; MEndBody uid FNone],
+           push_frame (emit s (ERun uid (now s) (match sq with Some q => q | None => QMain end))) XStk caps)
       | KMeth a body arg =>
           match aget (actors s) a with
           | Some x =>
@@ -880,9 +883,9 @@ Definition run_item (ci : citem) (s : st) : list mop * st :=
 (* a queue item dropped without running: the outer closure's captures go in declaration order *)
 Definition drop_item (ci : citem) (s : st) : list mop * st :=
   match ci with
-  | CI uid cid kind caps =>
+  | CI uid cid kind caps sq =>
       match kind with
-      | KPlain _ => (drops caps, emit s (EDrop uid))
+      | KPlain _ => (drops caps, emit s (EDrop uid sq false))
       | KMeth a _ _ | KPrep a _ _ => ([MDropRef a; MDropInner ci], s)
       | KSlabRm p _ => ([MDropRef p], s)
       | KTerm a => ([MDropRef a], s)
@@ -897,7 +900,7 @@ Definition msg_cause (m : option msg) : option cause :=
 
 Definition set_arg (ci : citem) (arg : option N) : citem :=
   match ci with
-  | CI u c (KMeth a b _) caps => CI u c (KMeth a b arg) caps
+  | CI u c (KMeth a b _) caps q => CI u c (KMeth a b arg) caps q
   | _ => ci
   end.
 
@@ -924,7 +927,7 @@ Definition ret_invoke (r : ret) (m : option msg) (s : st) : list mop * st :=
           match m with
           | Some _ =>
               let s1 := ref_clone s p in
-              ([MRetInvoke inner m; MDropRef p], push_main s1 (CI 0 0 (KSlabRm p key) []))
+              ([MRetInvoke inner m; MDropRef p], push_main s1 (CI 0 0 (KSlabRm p key) [] None))
           | None => ([MDropRef p; MRetInvoke inner None], s)
           end
       end
@@ -950,7 +953,7 @@ Definition drop_own (a : N) (logged : bool) (s : st) : list mop * st :=
       match count_dec (a_strong x) with
       | Some (v, z) =>
           let s1 := upd_actor s0 a (with_strong x v) in
-          if z then ([MDropRef a], push_main (ref_clone s1 a) (CI 0 0 (KTerm a) []))
+          if z then ([MDropRef a], push_main (ref_clone s1 a) (CI 0 0 (KTerm a) [] None))
           else ([MDropRef a], s1)
       | None => ([MDropRef a], emit s0 (EBad 41))
       end
@@ -1063,7 +1066,7 @@ Definition step (k : list mop) (s : st) : option (list mop * st) :=
             end
         | MRunItem ci => run_item ci s
         | MDropItem ci => drop_item ci s
-        | MDropInner ci => (drops (ci_caps ci), emit s (EDrop (ci_uid ci)))
+        | MDropInner ci => (drops (ci_caps ci), emit s (EDrop (ci_uid ci) (ci_sq ci) (ci_call ci)))
         | MDropVal v => drop_val v s
         | MDropOwn a lg => drop_own a lg s
         | MDropRef a => drop_ref a s
@@ -1138,7 +1141,10 @@ Definition step (k : list mop) (s : st) : option (list mop * st) :=
             | None => ([], s)
             end
         | MEpilogue =>
-            ([MTop TDropStakker; MDropAll; MTop (TNew 0); MTop TDropStakker; MLeaks], emit s EEpilogue)
+            (* drop everything; two flush rounds (a fresh Stakker drops what was parked in the global queue; handles
+               bound by Drop handlers meanwhile are dropped again) *)
+            ([MTop TDropStakker; MDropAll; MTop (TNew 0); MTop TDropStakker; MDropAll;
+              MTop (TNew 0); MTop TDropStakker; MDropAll; MLeaks], emit s EEpilogue)
         | MLeaks =>
             let s1 := class_flags s in
             ([], set_tr s1 (rev (leaks (rev (tr s1))) ++ tr s1))
